@@ -125,7 +125,8 @@ def parseRq (j : Json) (useOpts : Bool) : Rq :=
             hasBody := getBool rq "hasBody", bodyOK := getStr rq "bodyFail" == "" },
     declared := strs (getArr rq "declared"),
     -- "noauth": no AuthenticationFunc configured. Validator (useOpts): validateSecurityRequirement returns
-    -- ErrAuthenticationServiceMissing for every requirement; ValidationHandler: Load installs the no-op function,
+    -- ErrAuthenticationServiceMissing for every non-empty requirement (an empty one, {}, passes before the function
+    -- is looked for — 1f8c043; in the C07 model an empty requirement makes no authentication call at all); ValidationHandler: Load installs the no-op function,
     -- which accepts every scheme it is asked about (undeclared schemes fail before it is asked)
     accepted := if getBool rq "noauth" then
                   (if useOpts then [] else
@@ -170,6 +171,8 @@ def rqBranches (j : Json) (r : Rq) : List String :=
   (if r.o.excludeQuery && (r.op.pathParams ++ r.op.opParams).any (fun p => p.loc == .query) then ["rq.opt.exq"] else []) ++
   (if r.o.multiError then ["rq.opt.multi"] else []) ++
   (if getBool (getD j "rq" Json.null) "noauth" then ["rq.noauth"] else []) ++
+  (if (KinModel.Request.securityList r.op).any (·.isEmpty) then
+     ["rq.sec.empty_requirement" ++ (if getBool (getD j "rq" Json.null) "noauth" then ".noauth" else "")] else []) ++
   (if getBool j "decoy" then ["doc.decoy"] else [])
 
 def insertKV (p : String × String) : List (String × String) → List (String × String)
